@@ -294,6 +294,7 @@ def _otsu_case(rng):
         v = rng.choice(rng.randint(0, 1 << bits, 4), n)
     return {"fn": "otsu", "ints": [int(x) for x in v], "bits": bits, "pseed": int(rng.randint(1 << 30)),
             "a2": int(rng.choice([-2, -1, 1, 2, 3])), "b": int(rng.randint(-8, 9)),
+            "kw2": int(rng.choice([-27, -24, -20, -17, -14, -10, -7, -3, 10])), "e10": int(rng.randint(-8, 4)),
             "a": float(rng.uniform(0.2, 3.0)), "bf": float(rng.uniform(-1, 1))}
 
 
@@ -704,6 +705,9 @@ def _impl_otsu(case):
     out = {"t": t, "det": bool(t == float(otsu(x.copy())))}
     perm = prng.permutation(len(x))
     out["perm"] = bool(float(otsu(x[perm].copy())) == t)
+    aw_ = 2.0 ** case.get("kw2", -20)
+    if float(otsu(aw_ * x[perm])) != float(otsu(aw_ * x)):
+        out["perm"] = False
     k = int(prng.randint(1, 6))
     pos = np.sort(prng.randint(0, len(x) + 1, k))
     xn = np.insert(x, pos, np.nan)
@@ -715,15 +719,31 @@ def _impl_otsu(case):
     af, bf = case["a"], case["bf"]
     out["affine"] = [float(otsu(af * x + bf)), af * t + bf]
     out["minmax"] = [float(x.min()), float(x.max())]
+    # scales over many orders of magnitude.  A power-of-two factor is exact in every operation of the cut (no
+    # rounding changes, no underflow here), so otsu(2^k z) == 2^k otsu(z) must hold EXACTLY, for z = x and z = x + b/8
+    aw = 2.0 ** case.get("kw2", -20)
+    z = x + b / 8.0
+    out["scale_exact"] = [[float(otsu(aw * x)), aw * t], [float(otsu(aw * z)), aw * float(otsu(z.copy()))]]
+    # a general factor a * 10^e with a proportional shift: tolerance relative to the SPREAD of the rescaled data
+    ag = af * 10.0 ** case.get("e10", 0)
+    zz = x + bf
+    out["affine_wide"] = [float(otsu(ag * zz)), ag * float(otsu(zz.copy())), ag * float(x.max() - x.min())]
+    same = lambda p, q: len(p) == len(q) and all(u == v or (u != u and v != v) for u, v in zip(p, q))
     for name, f in (("entropy", entropy), ("otsu3", otsu3), ("entropy3", entropy3)):
         try:
             r0 = np.atleast_1d(np.asarray(f(x.copy()), float)).tolist()
             r1 = np.atleast_1d(np.asarray(f(x[perm].copy()), float)).tolist()
             r2 = np.atleast_1d(np.asarray(f(xn.copy()), float)).tolist()
+            # the same two invariances on the data rescaled by 2^kw2 (small / large amplitudes)
+            s0 = np.atleast_1d(np.asarray(f(aw * x), float)).tolist()
+            s1 = np.atleast_1d(np.asarray(f(aw * x[perm]), float)).tolist()
+            s2 = np.atleast_1d(np.asarray(f(aw * xn), float)).tolist()
         except Exception as e:           # outside the claim (the property speaks of the two-class cut); counted
             out[name] = {"skipped": type(e).__name__}
             continue
-        same = lambda p, q: len(p) == len(q) and all(u == v or (u != u and v != v) for u, v in zip(p, q))
+        if not (same(s0, s1) and same(s0, s2)):
+            out[name] = {"perm": same(s0, s1), "nan": same(s0, s2)}
+            continue
         out[name] = {"perm": same(r0, r1), "nan": same(r0, r2)}
     return out
 
@@ -1046,6 +1066,18 @@ def compare(case, out, m):
         return None                                  # ill-conditioned arg-min; counted in model()
     if abs(Fraction(out["t"]) - t) > Fraction(1, 10 ** 9) * max(abs(t), Fraction(1, 1 << case["bits"])):
         return "otsu: implementation %r, Q model %r" % (out["t"], float(t))
+    # the rescaled data (factor 2^kw2, many orders of magnitude) must be cut into the SAME two classes as the exact
+    # model's optimal split
+    if "scale_exact" in out and len(set(case["ints"])) > 1:
+        T = _fr(m[0])
+        ts = Fraction(out["scale_exact"][0][0]) / Fraction(2) ** case["kw2"] * (1 << case["bits"])    # back to integer units
+        if all(abs(v - T) > Fraction(1, 10 ** 9) for v in case["ints"]):
+            n_model = sum(1 for v in case["ints"] if v < T)
+            n_impl = sum(1 for v in case["ints"] if v < ts)
+            if n_model != n_impl:
+                return ("otsu(2^%d x) = %r separates %d | %d values, the exact model's optimal split is %d | %d" % (
+                    case["kw2"], out["scale_exact"][0][0], n_impl, len(case["ints"]) - n_impl, n_model,
+                    len(case["ints"]) - n_model))
     return None
 
 
@@ -1220,6 +1252,14 @@ def check(ctx, cases, outs):
             elif (abs(o["affine"][0] - o["affine"][1]) > 1e-9 * max(1.0, abs(o["affine"][1]))
                   and not _illcond(ctx, c)):
                 res[k] = "S6 otsu(a x + b) = %r but a otsu(x) + b = %r" % tuple(o["affine"])
+            elif any(g != e for g, e in o["scale_exact"]):
+                g, e = [p_ for p_ in o["scale_exact"] if p_[0] != p_[1]][0]
+                res[k] = ("S6 otsu(2^%d z) = %r but 2^%d otsu(z) = %r (a power-of-two factor is exact in every operation of "
+                          "the cut)" % (c["kw2"], g, c["kw2"], e))
+            elif (abs(o["affine_wide"][0] - o["affine_wide"][1]) > 1e-9 * o["affine_wide"][2] + 1e-13 * abs(o["affine_wide"][1])
+                  and len(set(c["ints"])) > 1 and not _illcond(ctx, c)):
+                res[k] = "S6 otsu(a z) = %r but a otsu(z) = %r for a = %r * 10^%d (spread of the data %r)" % (
+                    o["affine_wide"][0], o["affine_wide"][1], c["a"], c["e10"], o["affine_wide"][2])
             else:
                 for name in ("entropy", "otsu3", "entropy3"):
                     if "skipped" in o[name]:
